@@ -701,6 +701,11 @@ class Renderer:
                         between[len(rows)] = [ch.choice(pool) for _ in range(ch.count(1, 2))]
                         self.used.setdefault("fixed-comment-between-continuation", set()).add("yes")
                     rows.append("     " + cc + pc)
+            if not length_limit and ch.bool(1, 4):
+                # blanks are insignificant in fixed form: push the statement text beyond column 72
+                i = ch.int(len(rows))
+                if len(rows[i]) < 76 and "'" not in rows[i] and '"' not in rows[i]:
+                    rows[i] = rows[i][:6] + " " * (78 - len(rows[i])) + rows[i][6:]
             if not length_limit and any(len(r) > 72 for r in rows):
                 self.used.setdefault("fixed-long-line", set()).add("yes")
             if any(len(r) > 72 for r in rows) and length_limit:
@@ -788,7 +793,7 @@ def render_file(f, ch=None, marks=None, features=None, form=None, length_limit=T
         lines += r.unit(u)
     form = form or f.get("form", "free")
     extras = {}
-    if form != "fixed" and r.feat.get("include_split") and r.ch.bool(1, 2):
+    if r.feat.get("include_split") and r.ch.bool(1, 2):
         # move a run of whole declarations (with their documentation) of a module into an include file
         runs, i = [], 0
         while i < len(lines):
@@ -805,7 +810,8 @@ def render_file(f, ch=None, marks=None, features=None, form=None, length_limit=T
             a = a + r.ch.int(b - a)
             b = a + 1 + r.ch.int(b - a)
             inc_name = os.path.basename(f["path"]).rsplit(".", 1)[0] + "_decls.inc"
-            extras[os.path.join(os.path.dirname(f["path"]), inc_name)] = r.layout_free(lines[a:b], None)
+            extras[os.path.join(os.path.dirname(f["path"]), inc_name)] = (
+                r.layout_fixed(lines[a:b], None, length_limit) if form == "fixed" else r.layout_free(lines[a:b], None))
             q = r.ch.choice(["'", '"'])
             lines[a:b] = [Line(f"{r.kw('include')} {q}{inc_name}{q}", nobreak=True)]
             r.used.setdefault("include-split", set()).add("yes")
@@ -825,7 +831,10 @@ def render_project(project, ch=None, marks=None, features=None, form=None, lengt
         text, u, extras = render_file(f, ch, marks, features, form, length_limit)
         path = f["path"]
         if form == "fixed" and not path.endswith(".f"):
-            path = path.rsplit(".", 1)[0] + ".f"
+            ext = ".f"
+            if (features or {}).get("fixed_exts") and ch is not None:
+                ext = ch.choice([".f", ".f", ".for", ".F", ".FOR"])     # every extension FORD documents as fixed form
+            path = path.rsplit(".", 1)[0] + ext
         files[path] = text
         files.update(extras)
         for k, v in u.items():
